@@ -8,6 +8,7 @@ import (
 	"sync"
 	"time"
 
+	"github.com/contiv/libOpenflow/common"
 	"github.com/contiv/libOpenflow/util"
 
 	"vh/fw"
@@ -31,6 +32,7 @@ type c11Case struct {
 	WriteSleep  int    `json:"write_sleep_us"` // microseconds, inside every 8th write
 	ProdYield   int    `json:"producer_yield"`
 	Barrier     bool   `json:"barrier"` // producers start together
+	Inbound     int    `json:"inbound"` // echo requests arriving on the same connection while the producers submit (full duplex)
 }
 
 func init() {
@@ -75,6 +77,9 @@ func c11Gen(tier string, seed uint64, i int) any {
 	c.WriteSleep = r.Pick(0, 0, 0, 50, 200)
 	c.ProdYield = r.Pick(0, 0, 1, 3)
 	c.Barrier = r.Bool()
+	if i%3 == 1 {
+		c.Inbound = r.Pick(10, 100, 300)
+	}
 	return c
 }
 
@@ -149,7 +154,18 @@ func c11Eval(c *fw.Ctx, data any) {
 			total += len(it.want)
 		}
 	}
-	conn := sched.NewConn(nil)
+	// full duplex: frames arrive on the same connection while the producers submit (the two directions share the
+	// connection and the stream object; the race detector watches, and the inbound side must not lose anything either)
+	var inbound []byte
+	for k := 0; k < cs.Inbound; k++ {
+		e := []byte{4, 2, 0, 8, 0x7e, 0, 0, 0}
+		binary.BigEndian.PutUint16(e[6:], uint16(k))
+		inbound = append(inbound, e...)
+	}
+	conn := sched.NewConn(inbound)
+	for k := 5; k < len(inbound); k += 13 {
+		conn.Cuts = append(conn.Cuts, k)
+	}
 	conn.WriteYield = cs.WriteYield
 	if cs.WriteSleep > 0 {
 		conn.WriteSleep = time.Duration(cs.WriteSleep) * time.Microsecond
@@ -260,6 +276,25 @@ func c11Eval(c *fw.Ctx, data any) {
 	}
 	if len(s.errs) > 0 {
 		viol("error", "spurious-error", "an error was published: "+fmtErrs(s.errs))
+	}
+	if cs.Inbound > 0 {
+		got := map[uint32]int{}
+		for _, d := range s.delivered {
+			if h, ok := d.Msg.(*common.Header); ok && !d.Nil {
+				got[h.Xid]++
+			}
+		}
+		lost := 0
+		for k := 0; k < cs.Inbound; k++ {
+			if got[0x7e000000|uint32(k)] != 1 {
+				lost++
+			}
+		}
+		c.Count("duplex_streams", 1)
+		c.Count("duplex_inbound_frames", int64(cs.Inbound))
+		if lost > 0 || len(s.delivered) != cs.Inbound {
+			viol("duplex", "inbound-while-sending", fmt.Sprintf("%d echo requests arrived while %d producers were sending; %d were delivered, %d of them missing or duplicated", cs.Inbound, P, len(s.delivered), lost))
+		}
 	}
 	if c.WantSample() && P >= 2 && P <= 3 && M <= 3 {
 		var evs []string
